@@ -668,6 +668,13 @@ class XMLRootElement(XMLElement):
 
             root = XMLRootElement.from_string(xml_data)
 
+            stripped = xml_data.strip()
+            if not (
+                stripped.endswith('</' + root.tag + '>') or
+                (stripped.count('<') == 1 and stripped.endswith('/>'))
+            ):
+                raise XMLLoadError('incomplete xml file')
+
             if xml_data:
                 with open(file_path + '.backup', 'w') as f:
                     f.write(xml_data)
